@@ -3,12 +3,59 @@ SPEC = {
     'harness': 'hC11',
     'coq_dir': 'C11',
     'claimed': False,
-    'theorems': [],
+    'theorems': [
+        'C11_model_refines_spec_partial', 'C11_failed_tx_equiv_fee_only_partial', 'C11_guard_example',
+        'C11_state_refines_spec', 'C11_state_failed_tx_equiv_fee_only',
+        'C11_spec_replace_block', 'C11_spec_failed_leaves_fee_only',
+        'C11_refuted', 'C11_failed_tx_equiv_fee_only_refuted',
+    ],
     'allowed_axioms': [],
-    'shard': 32,
-    'rule': 'TODO',
-    'trusted_base': [],
-    'assumptions': [],
-    'manifest': {'level_text': 'TODO', 'level_note': 'TODO', 'technique': 'TODO'},
+    'shard': 24,
+    'rule': 'CBlock: one case = one block (1-20 transactions: scripts of the synthetic drivers verifst (ExecLocalSameTime) and '
+            'verifno (ordinary order), coins transfers, groups of 2-4) executed by the real executor through EventExecTxList on a '
+            'test node on top of a mined base block (funded payers, existing state and local keys); observables: every receipt '
+            '(type, KV list with account values canonicalised to balances, log types) and every value a script read (state Get, '
+            'local Get/List; recorded by the drivers, also for transactions that fail afterwards). Small alphabets: 8 state keys, '
+            '6 local keys, 4 list prefixes, 4 payers (one rich, one with 7 fees, one with 2.5 fees, one empty). Streams: '
+            'block-fixed (hand-written), block-witness (known finding 1), block-guarded (a transaction/group that may fail writes no '
+            'local data, so no Rollback happens with buffered writes: any spec failure is a violation), block-unrestricted. '
+            'COps: one case = one Begin/Set/Get/List/Commit/Rollback history on executor.NewLocalDB(client, api, false) of the same '
+            'node; streams ops-guarded (a List flushes before every Rollback), ops-unrestricted (bracketed), ops-unbracketed '
+            '(correspondence only: the specification speaks about bracketed histories), ops-witness. CEnv: the address/key '
+            'constants of Check.v are the strings the harness used. non-trivial = a read happens after a failed (ExecPack) '
+            'transaction of the block / after a Rollback of the history; distinct = distinct Gallina case terms',
+    'trusted_base': [
+        'contracts are modelled as straight-line scripts of two synthetic drivers; the harness registers drivers that interpret '
+        'exactly these scripts (a driver whose control flow depends on values it reads is outside the model)',
+        'all forks that matter are active (ForkExecRollback, ForkResetTx0, ForkStateDBSet, ForkLocalDBAccess, ForkTxGroup), as on the test node; '
+        'height > 0; not a parachain; MinTxFeeRate > 0; drivers are not IsFree',
+        'isAllowKeyWrite is modelled on the generated key domain only: a synthetic driver may write mavl-<its name>-*, coins may write '
+        'mavl-coins-* (C12 covers the rule itself); checkTx / checkTxGroup / address checks are assumed to pass (the harness builds valid '
+        'transactions); checkPrefix on returned local keys always passes on the generated domain (it panics otherwise)',
+        'types.Account values are modelled by their balance only (the harness decodes account values to the balance); '
+        'coins Transfer is modelled for ordinary recipient addresses (no TransferToExec), without int64 overflow',
+        'the merged-iterator listing of common/db.LocalDB.List(prefix, nil, 0, ListASC) is modelled by its specification: live values '
+        'under the prefix of the overlay txcache > cache > maindb in key order (C07 proves this for the iterator code)',
+        'the queue round trips of blockchain/localdb.go (LocalNew/Begin/Set/Get/List/Commit/Rollback/Close by txid) are modelled as '
+        'direct calls on one remote LocalDB per block; the store and the blockchain database do not change during the block',
+        'a panic inside ExecLocal (not recovered by executor.Exec; aborts the whole EventExecTxList) is not modelled',
+    ],
+    'assumptions': [
+        'guard of the _partial theorems (boolean, third component of run_model): at every Rollback of the block the buffered write list '
+        'of executor.LocalDB is empty, i.e. every local write of a failing transaction/group was flushed by a List before the failure, '
+        'or there was none',
+        'sorted main: the local database content is a map (no duplicate keys)',
+    ],
+    'manifest': {
+        'level_text': 'full for receipts, state writes and state reads (all blocks of scripts: a failed transaction/group is '
+                      'indistinguishable from one that only pays the fee); partial for local data: holds when no Rollback happens with '
+                      'buffered local writes, refuted otherwise (known finding 1: executor.LocalDB.Rollback keeps the buffered kvs, a '
+                      'later List/Commit of the same block flushes and commits them)',
+        'level_note': 'synthetic straight-line contracts; key-permission rule, tx validity checks, account encoding and the merged '
+                      'iterator are modelled at their specification; forks as on the test node',
+        'technique': 'Coq proof (operation-wise simulation between the cache/transaction/buffer implementation model and a '
+                     'scratch-copy specification, lifted through a backend-generic block interpreter; spec-level replacement theorem) '
+                     '+ in-kernel correspondence check on a test node',
+    },
     'harness_timeout': {'quick': 300, 'thorough': 3000},
 }
